@@ -1955,7 +1955,7 @@ class CreateQueryBuilder:
         :return:
             CreateQueryBuilder.
         """
-        if self._primary_key:
+        if self._primary_key is not None:
             raise AttributeError("'Query' object already has attribute primary_key")
         self._primary_key = self._prepare_columns_input(columns)
 
@@ -2002,7 +2002,7 @@ class CreateQueryBuilder:
         :return:
             CreateQueryBuilder.
         """
-        if self._foreign_key:
+        if self._foreign_key is not None:
             raise AttributeError("'Query' object already has attribute foreign_key")
         self._foreign_key = self._prepare_columns_input(columns)
         self._foreign_key_reference_table = (
@@ -2266,7 +2266,7 @@ class DropQueryBuilder:
         self._if_exists = True
 
     def _set_target(self, kind: str, target: Union[Database, Table, str]) -> None:
-        if self._drop_target:
+        if self._drop_target_kind is not None:
             raise AttributeError("'DropQuery' object already has attribute drop_target")
         self._drop_target_kind = kind
         self._drop_target = target
